@@ -5,9 +5,14 @@
 // specification predicates, used as runtime oracles by replays.
 package codec
 
-import "github.com/resgateio/resgate/server/reserr"
+import (
+	"net/http"
+
+	"github.com/resgateio/resgate/server/reserr"
+)
 
 var _ = reserr.ErrNotFound
+var _ http.Header
 
 //@ define predTokChar(b byte) bool = 33 <= b && b <= 126 && b != '.' && b != '*' && b != '>' && b != '?'
 
@@ -39,6 +44,8 @@ var _ = reserr.ErrNotFound
 //@ func MergeHeader
 //@   requires b != nil ==> a != nil
 //@   assumes a != b
+// (the header names of b are canonical: guaranteed by the decoders above, assumed here)
+//@   assumes predCanonKeys(b)
 //@   ensures[C17] forall k string :: predProtectedHeader(k) ==> has(a, k) == old(has(a, k)) && a[k] == old(a[k])
 //@   ensures[C17] forall k string :: has(b, k) && !predProtectedHeader(k) && k != "Set-Cookie" ==> has(a, k) && a[k] == b[k]
 //@   ensures[C17] forall k string :: !has(b, k) ==> has(a, k) == old(has(a, k)) && a[k] == old(a[k])
@@ -50,6 +57,31 @@ var _ = reserr.ErrNotFound
 //@   loop 1 invariant forall k string :: visited1[k] && has(b, k) && !predProtectedHeader(k) && k != "Set-Cookie" ==> has(a, k) && a[k] == b[k]
 //@   loop 1 invariant forall k string :: !visited1[k] || !has(b, k) ==> has(a, k) == old(has(a, k)) && a[k] == old(a[k])
 //@   loop 1 invariant visited1["Set-Cookie"] && has(b, "Set-Cookie") ==> has(a, "Set-Cookie") && len(a["Set-Cookie"]) == old(len(a["Set-Cookie"])) + len(b["Set-Cookie"])
+
+// Header keys in canonical MIME form: the protection rules of MergeHeader compare canonical
+// names, so every meta object handed on by the decoders has canonical keys only.
+//@ define predCanonKeys(h http.Header) bool = forall k string :: has(h, k) ==> ufStr_canon(k) == k
+
+// Canonicalize leaves only canonical keys (values of keys that collapse are appended).
+//@ func (*Meta).Canonicalize
+//@   ensures[C17] m != nil && m.Header != nil ==> predCanonKeys(m.Header)
+//@   ensures[C17] m != nil ==> m.Header == old(m.Header) && m.Status == old(m.Status)
+//@   assigns elems(m.Header), elemsof([]string), alloc()
+//@   safety[C15]
+//@   loop 1 invariant h != nil && m.Header == h && h == old(m.Header) && m.Status == old(m.Status)
+//@   loop 1 invariant forall k string :: has(h, k) && ufStr_canon(k) != k ==> !visited1[k]
+
+// The meta object of every decoded access and call/auth answer - result, resource or error -
+// has canonical header keys.
+//@ func DecodeAccessResponse
+//@   ensures[C17] result1 != nil && result1.Header != nil ==> predCanonKeys(result1.Header)
+//@   ensures result2 != nil ==> result0 == nil
+//@   safety[C15]
+//@ func DecodeCallResponse
+//@   ensures[C17] result2 != nil && result2.Header != nil ==> predCanonKeys(result2.Header)
+//@   ensures[C14] result1 != "" ==> predValidRID(result1, true) && result3 == nil
+//@   ensures result3 != nil ==> reserr.predErrOK(result3)
+//@   safety[C15]
 
 // Merge: the meta of a later response overrides the status of the earlier one only if it
 // carries one; headers are merged under the MergeHeader rules (protected headers untouched).
